@@ -34,6 +34,8 @@ InvalidEarly == {"c_noaddr", "c_both", "c_nohost", "c_badport", "c_userpass", "c
 \* ... and those detected only after the duplicate check (they run checkDuplicateCollection first)
 InvalidLate == {"c_badb64", "c_badproto", "c_mixcoll", "c_badrpcpos"}
 MustReject == InvalidEarly \cup InvalidLate \cup {"c_dup"}
+\* creates whose outcome the statement leaves open, but which must not crash: a name mapping with dotted source names
+OpenCreates == {"c_dotmap"}
 ReadOnly == {"list", "maintenance"}
 TaskOps == {"pause", "resume", "get", "position", "delete", "delete_ignore"}
 
@@ -96,6 +98,8 @@ Probe(c, s) ==
     \/ /\ c \in InvalidLate \ {"c_badrpcpos"} /\ ReachesBook(Answer("err") /\ Same)
     \/ /\ c = "c_badrpcpos"
        /\ ReachesBook(/\ Answer("err") /\ orphan' = (orphan \/ ~RpcPosCheckedFirst) /\ UNCHANGED <<st, dotted, touched>>)
+    \/ /\ c = "c_dotmap"                       \* matchCollectionName on the mapping name (cdc_impl.go:371) panics
+       /\ (IF DotNameHandled THEN Answer("err") ELSE Answer("broken")) /\ Same
     \/ /\ c = "c_dup" /\ st[s] # "none" /\ ~dotted[s] /\ ReachesBook(Answer("err") /\ Same)
     \/ /\ c = "pause" /\ StOf(s) # "running" /\ Answer("err") /\ Same
     \/ /\ c = "resume" /\ StOf(s) # "paused" /\ Answer("err") /\ Same
@@ -104,7 +108,7 @@ Probe(c, s) ==
     \/ /\ c = "get" /\ Answer(IF StOf(s) = "none" THEN "err" ELSE "200") /\ Same
     \/ /\ c = "position" /\ Answer("200") /\ Same
 
-ProbeClasses == Envelope \cup ReadOnly \cup MustReject \cup TaskOps
+ProbeClasses == Envelope \cup ReadOnly \cup MustReject \cup OpenCreates \cup TaskOps
 
 Rec(c, s) == [op |-> c, slot |-> s]
 
